@@ -80,8 +80,12 @@ def oracle(case):
         px = pw[x["id"]]
         c = pc.get(x["cons"])
         gg, ff = (c["g_glshwi"], c["f_f"]) if c else (0.77, 0.2)
-        fs = px.get("f_shobst_override")
-        fs = px.get("f_shobst") if fs is None else fs
+        # the user's factor is read from the model's overrides, the computed one from compute_fshobst() itself: neither through the props
+        ov = ((case["model"].get("overrides") or {}).get("windows") or {}).get(x["id"]) or {}
+        fs = ov.get("f_shobst")
+        direct = case["impl"].get("fshobst_direct")
+        if fs is None:
+            fs = direct.get(x["id"]) if direct is not None else px.get("f_shobst")
         fs = 1.0 if fs is None else fs
         o = "HZ" if m.tilt(w) != "SIDE" else __import__("spec").orientc(w["geometry"]["azimuth"])
         H = case["radjul"].get(o)
